@@ -188,23 +188,24 @@ class Response:
             self.cookie = value
 
 
-_tmpl = []
+_tmpl = {}
 
 
-def template():
-    if not _tmpl:
+def template(opt=''):
+    if opt not in _tmpl:
         import TreeDisplay  # noqa: F401  registers the tree tag
         from DocumentTemplate import HTML
-        _tmpl.append(HTML('<dtml-tree root>[[<dtml-var tpId>]]</dtml-tree>'))
-    return _tmpl[0]
+        _tmpl[opt] = HTML('<dtml-tree root %s>[[<dtml-var tpId>]]</dtml-tree>'
+                          % opt)
+    return _tmpl[opt]
 
 
-def render(root, request):
+def render(root, request, opt=''):
     resp = Response()
     ns = {'root': root, 'URL': 'http://h/doc', 'RESPONSE': resp}
     ns.update(request)
     try:
-        out = template()(**ns)
+        out = template(opt)(**ns)
     except CaseTimeout:
         raise
     except Exception as e:
@@ -228,6 +229,8 @@ def judge_state(res, ctx, E, out, cookie, via):
     from TreeDisplay.TreeTag import decode_seq
     root_id, children, parent = ctx['root_id'], ctx['children'], ctx['parent']
     sub = {'shape': ctx['shape'], 'ids': ctx['ids'], 'history': via}
+    if ctx.get('opt'):
+        sub['opt'] = ctx['opt']
     if isinstance(out, BaseException):
         res.violate('rows', 'render-exc:%s:%s' % (type(out).__name__,
                                                    ctx['ids']),
@@ -244,7 +247,10 @@ def judge_state(res, ctx, E, out, cookie, via):
                      'history': via}, sub)
         return None
     for ident, links in rows:
-        has_kids = bool(children[ident])
+        # with assume_children a childless node is drawn with an expand
+        # link until it has been expanded (and found empty)
+        has_kids = bool(children[ident]) or (bool(ctx.get('opt')) and
+                                             ident not in E)
         if not has_kids:
             if links:
                 res.violate('links', 'leaf-has-link:%s' % tag,
@@ -299,7 +305,7 @@ def step_model(E, ev, ctx):
     return frozenset(E - {ident} - descendants(ident, ctx['children']))
 
 
-def step_impl(root, cookie, ev):
+def step_impl(root, cookie, ev, opt=''):
     kind = ev[0]
     req = {}
     if cookie is not None:
@@ -308,13 +314,16 @@ def step_impl(root, cookie, ev):
         req[kind] = 1
     else:
         req['tree-' + kind] = ev[2]
-    return render(root, req)
+    return render(root, req, opt)
 
 
 def explore(res, ctx, root, literal_depth):
     """-> (states, transitions)"""
     E0 = frozenset()
-    out, cookie = render(root, {})
+    opt = ctx.get('opt', '')
+    extra = [] if opt else [('expand_all', None, None),
+                            ('collapse_all', None, None)]
+    out, cookie = render(root, {}, opt)
     ev0 = judge_state(res, ctx, E0, out, cookie, [])
     if ev0 is None:
         return 1, 0
@@ -325,9 +334,8 @@ def explore(res, ctx, root, literal_depth):
     for d in range(literal_depth):
         nxt = []
         for E, ck, evs, hist in frontier:
-            for ev in list(evs) + [('expand_all', None, None),
-                                   ('collapse_all', None, None)]:
-                out2, ck2 = step_impl(root, ck, ev)
+            for ev in list(evs) + extra:
+                out2, ck2 = step_impl(root, ck, ev, opt)
                 transitions += 1
                 E2 = step_model(E, ev, ctx)
                 h2 = hist + [[ev[0], ev[1]]]
@@ -352,9 +360,8 @@ def explore(res, ctx, root, literal_depth):
         if E in done:
             continue
         done.add(E)
-        for ev in list(evs) + [('expand_all', None, None),
-                               ('collapse_all', None, None)]:
-            out2, ck2 = step_impl(root, ck, ev)
+        for ev in list(evs) + extra:
+            out2, ck2 = step_impl(root, ck, ev, opt)
             transitions += 1
             E2 = step_model(E, ev, ctx)
             h2 = hist + [[ev[0], ev[1]]]
@@ -375,7 +382,8 @@ def explore(res, ctx, root, literal_depth):
 
 def replay_history(res, ctx, root, history):
     E = frozenset()
-    out, ck = render(root, {})
+    opt = ctx.get('opt', '')
+    out, ck = render(root, {}, opt)
     evs = judge_state(res, ctx, E, out, ck, [])
     hist = []
     for kind, ident in history:
@@ -390,7 +398,7 @@ def replay_history(res, ctx, root, history):
                             {'history': history, 'at': [kind, ident]})
                 return
             ev = match[0]
-        out, ck = step_impl(root, ck, ev)
+        out, ck = step_impl(root, ck, ev, opt)
         E = step_model(E, ev, ctx)
         hist = hist + [[kind, ident]]
         evs = judge_state(res, ctx, E, out, ck, hist)
@@ -499,6 +507,11 @@ def cases(tier):
             else:
                 lit = 6 if nodes <= 5 else (5 if nodes <= 7 else 4)
             yield {'fam': 'click', 'shape': sh, 'ids': ids, 'literal': lit}
+        if nodes <= (5 if tier == 'quick' else 6):
+            # option assume_children: every node carries a link; expanding
+            # a childless node only records it in the state
+            yield {'fam': 'click', 'shape': sh, 'ids': 'short',
+                   'literal': 3, 'opt': 'assume_children'}
 
 
 def run(case):
@@ -516,7 +529,8 @@ def run(case):
         return res
     root, children, parent = build_tree(case['shape'], case['ids'])
     ctx = {'root_id': root.ident, 'children': children, 'parent': parent,
-           'shape': case['shape'], 'ids': case['ids']}
+           'shape': case['shape'], 'ids': case['ids'],
+           'opt': case.get('opt', '')}
     if 'history' in case:
         replay_history(res, ctx, root, case['history'])
         res.nontrivial = True
